@@ -60,7 +60,7 @@ func TestVerifDLEQ(t *testing.T) {
 		"dleq:altered-rejected:batch-order", "dleq:altered-rejected:batch-length", "dleq:false-statement-rejected",
 		"dleq:degenerate-proof-rejected", "dleq:cross-group-tried", "dleq:noncanonical-scalar-tried", "dleq:identity-statement-tried",
 		"dleq:marshal-roundtrip")
-	per := lib.Scale(16, 300)
+	per := lib.Scale(16, 48)
 	type cs struct {
 		gi, i int
 	}
@@ -483,7 +483,7 @@ func TestVerifDL(t *testing.T) {
 	const mon = "TestVerifDL"
 	lib.Mandatory("dl:honest-accepted", "dl:altered-rejected:G", "dl:altered-rejected:kG", "dl:altered-rejected:V", "dl:altered-rejected:R",
 		"dl:altered-rejected:userID", "dl:altered-rejected:otherInfo", "dl:forgery-rejected", "dl:cross-group-tried", "dl:noncanonical-scalar-tried")
-	per := lib.Scale(24, 500)
+	per := lib.Scale(24, 80)
 	type cs struct {
 		gi, i int
 	}
